@@ -113,7 +113,7 @@ contracts = {
 }
 
 proofs = [
-    Proof("Stack_Pop", [("Stack::Pop", 0)], enforce="Stack_Pop"),
+    Proof("Stack_Pop", [("Stack::Pop", 0)], enforce="Stack_Pop", replace=["Stack_Resize", "xc_new_Context_array"]),
     Proof("Stack_Top", [("Stack::Top", 0)], enforce="Stack_Top"),
     Proof("Stack_Contains", [("Stack::Contains", 1)], enforce="Stack_Contains"),
     Proof("Stack_Resize", [("Stack::Resize", 1)], enforce="Stack_Resize", replace=["xc_new_Context_array"]),
